@@ -434,3 +434,16 @@ pub mod verif_hooks {
     super::FunctionalPosition { step_size, offset }.is_matched(index)
   }
 }
+
+#[cfg(feature = "verif-hooks")]
+impl<L: Language> NthChild<L> {
+  /// verification hook: (step_size, offset, of_rule, reverse)
+  pub fn verif_parts(&self) -> (i32, i32, Option<&Rule<L>>, bool) {
+    (
+      self.position.step_size,
+      self.position.offset,
+      self.of_rule.as_deref(),
+      self.reverse,
+    )
+  }
+}
